@@ -224,6 +224,14 @@ func stableSign(a, b, c Point) Direction {
 	det := -e1.Cross(e2).Dot(op)
 	maxErr := detErrorMultiplier * math.Sqrt(e1.Norm2()*e2.Norm2())
 
+	// Errors smaller than this value may not be accurate due to underflow in
+	// the squared edge lengths or in the determinant itself, so the error
+	// bound cannot be trusted and we fall back to exact arithmetic.
+	const minNoUnderflowError = detErrorMultiplier * 0x1p-511 // sqrt(2^-1022)
+	if maxErr < minNoUnderflowError {
+		return Indeterminate
+	}
+
 	// If the determinant isn't zero, within maxErr, we know definitively the point ordering.
 	if det > maxErr {
 		return CounterClockwise
